@@ -164,9 +164,29 @@ func seq(c *kit.Ctx, id string) {
 			if inPlaceDB != w.DB {
 				inPlace, inPlaceDB = nil, w.DB // a fresh Database (Reopen) starts a new series
 			}
+			// the trie database is garbage collected the way a pruning node does it: each committed
+			// root is referenced, the oldest of more than four is released again (it never reached
+			// disk); the younger roots and, later, the flushed state must lose nothing
+			tdb := w.DB.TrieDB()
+			tdb.Reference(r1, common.Hash{})
+			tdb.Reference(r2, common.Hash{})
+			tdb.Reference(r3, common.Hash{})
 			inPlace = append(inPlace, committed{[3]common.Hash{r1, r2, r3}, dNow})
 			if len(inPlace) > 4 {
+				old := inPlace[0]
 				inPlace = inPlace[1:]
+				gone := true
+				for _, y := range inPlace {
+					if y.roots == old.roots {
+						gone = false // the same state committed again: still referenced by the younger entry... release one reference only
+					}
+				}
+				tdb.Dereference(old.roots[0])
+				tdb.Dereference(old.roots[1])
+				tdb.Dereference(old.roots[2])
+				_ = gone
+				c.Count("in_place_roots_garbage_collected", 1)
+				w.Ops = append(w.Ops, "gc oldest in-place root")
 			}
 			for k, old := range inPlace {
 				var got mon.Digest
